@@ -228,11 +228,11 @@ pub fn edge_wait_iff_ram_access() {
     let aval = m.registers().content()[areg];
     let access = w.contains(Word::BUSEN) || w.contains(Word::BUSWR);
     assert!(m.verif_pending_wait() == (access && aval <= 0xEF), "one wait per RAM access, none for I/O");
-    // bus frame (fetching the RETI opcode 0x2C clears the two key bits of MISR first)
+    // bus frame (fetching the RETI opcode 0x2C as a FIRST byte clears the two key bits of MISR first)
     let mut expect = pre.bus().clone();
     let pw = word_of(pre.verif_micro_address());
     let ir_load = pw.contains(Word::MAC2) && pw.contains(Word::MAC0) && !pw.contains(Word::MAC1);
-    if ir_load && pre.verif_last_bus_read() == 0x2C {
+    if ir_load && pw.contains(Word::MAC3) && pre.verif_last_bus_read() == 0x2C {
         let mut parts = expect.verif_parts();
         parts.misr &= !0x11;
         expect.verif_assemble(parts);
@@ -304,4 +304,25 @@ pub fn edge_never_panics_and_keeps_inv() {
     // the machine can be read afterwards
     let _ = (m.state(), m.is_instruction_done(), m.is_stackpointer_valid(), m.is_program_counter_valid());
     kani::cover!(m.state() == State::Running, "still running");
+}
+
+/// The effect of an edge depends on the current micro address only through the control word
+/// stored there: two machines that differ only in the address, with identical words, are
+/// identical after the edge.  (Justifies using one representative of the 15 identical fetch
+/// words and of the 13 identical 'int:' words in the path harnesses.)
+#[cfg_attr(kani, kani::proof)]
+pub fn edge_depends_on_address_only_through_word() {
+    let mut a = running_nowait();
+    let mut b = a.clone();
+    let other: usize = kani::any();
+    kani::assume(other < 512);
+    kani::assume(word_of(other).bits() == word_of(a.verif_micro_address()).bits());
+    b.verif_set_micro_address(other);
+    a.trigger_clock_edge();
+    b.trigger_clock_edge();
+    assert!(same_core(&a, &b), "same word => same successor state");
+    assert!(same_bus_regs(a.bus(), b.bus()) && same_board(a.bus().board(), b.bus().board()), "same bus effect");
+    let i = any_ram_index();
+    assert!(a.bus().memory()[i] == b.bus().memory()[i], "same RAM effect");
+    kani::cover!(other != 6 && word_of(other).bits() == word_of(6).bits(), "another fetch word");
 }
